@@ -286,3 +286,101 @@ func (x *run) monitorEvict(s *Snap) {
 }
 
 var _ = types.QuaiTxType
+
+// ---------- linearisability of concurrent additions ----------
+
+// genLinCase: a few goroutines add transactions that contend for the same (account, nonce)
+// slots, under wide limits (no cap, no truncation, no price change: the final quiescent
+// state then does not depend on where the reorg runs fell, only on the order in which
+// pool.mu serialised the calls). The final snapshot must equal the model state of SOME
+// interleaving that respects every goroutine's program order (checked inside Coq).
+func genLinCase(rng *hlib.Rng, w *world, id int, rep *hlib.Report) *Case {
+	n := 2
+	cfg := PoolCfg{PriceLimit: 1, PriceBump: pick(rng, []uint64{10, 25}), AccountSlots: 16, GlobalSlots: 64, AccountQueue: 64, GlobalQueue: 256}
+	c := &Case{ID: id, Kind: "lin", Cfg: cfg, NAccts: n}
+	c.Blocks = []BlockJS{{Parent: -1, State: st(1, 0, rich, 0, rich)}}
+	u := newUniverse()
+	ngo := 2 + rng.Intn(2)
+	total := 0
+	for g := 0; g < ngo; g++ {
+		nops := 1 + rng.Intn(3)
+		for i := 0; i < nops && total < 6; i++ {
+			op := OpJS{K: "add", G: g, Local: rng.Chance(10)}
+			for k := 1 + rng.Pick(60, 40); k > 0; k-- {
+				s := TxSpec{From: rng.Intn(n), Nonce: uint64(rng.Pick(45, 35, 20)), Price: pick(rng, []uint64{10, 11, 12, 13, 20, 25}), Gas: 21000, Value: uint64(g)}
+				op.Txs = append(op.Txs, u.id(s))
+			}
+			c.Ops = append(c.Ops, op)
+			total++
+		}
+	}
+	c.Txs = u.specs
+	c = runConc(w, c, rep)
+	c.Alts = interleavings(c)
+	return c
+}
+
+// interleavings enumerates the orders of c.Ops that keep each goroutine's own order.
+func interleavings(c *Case) [][]int {
+	groups := map[int][]int{}
+	var gids []int
+	for i, op := range c.Ops {
+		if _, ok := groups[op.G]; !ok {
+			gids = append(gids, op.G)
+		}
+		groups[op.G] = append(groups[op.G], i)
+	}
+	var out [][]int
+	pos := map[int]int{}
+	var rec func(cur []int)
+	rec = func(cur []int) {
+		if len(cur) == len(c.Ops) {
+			out = append(out, append([]int{}, cur...))
+			return
+		}
+		for _, g := range gids {
+			if pos[g] < len(groups[g]) {
+				i := groups[g][pos[g]]
+				pos[g]++
+				rec(append(cur, i))
+				pos[g]--
+			}
+		}
+	}
+	rec(nil)
+	return out
+}
+
+// coqLin prints a concurrent-additions case: every admissible interleaving is a candidate
+// history; only the final snapshot is compared.
+func (c *Case) coqLin() string {
+	final := "None"
+	if c.Final != nil {
+		final = "Some " + c.Final.Coq()
+	}
+	alts := make([]string, len(c.Alts))
+	for k, alt := range c.Alts {
+		steps := make([]string, len(alt))
+		for j, i := range alt {
+			op := &c.Ops[i]
+			ob := "None"
+			if j == len(alt)-1 {
+				ob = final
+			}
+			steps[j] = fmt.Sprintf("(CAdd %v %s, None, %s)", op.Local, coqInts(op.Txs), ob)
+		}
+		alts[k] = "[" + joinS(steps, "; ") + "]"
+	}
+	return c.coqHeader() + "[" + joinS(alts, ";\n  ") + "])"
+}
+
+func joinS(s []string, sep string) string {
+	out := ""
+	for i, x := range s {
+		if i > 0 {
+			out += sep
+		}
+		out += x
+	}
+	return out
+}
